@@ -2,6 +2,7 @@
 //
 // A case describes a finite sample set 0..N-1 and an exact-mode callback:
 //   metric=L1|Linf  pts=x,y;x,y;...  [sh=e]      integer coordinates, optionally scaled by 2^-e (dyadic data)
+//   metric=L2       pts=...                       Euclidean distance (sqrt rounds: oracle-only leg on generic data)
 //   metric=matrix   m=d00,d01,..;d10,..          precomputed integer metric
 //   cb=plain | cb=kernel                          PlainDistance / KernelDistance wrapper of tapkee
 //   kern=lin (with pts) | kern=matrix km=...      integer kernel values; the induced squared distances are perfect
@@ -75,6 +76,14 @@ struct Space
             return M[a][b];
         double acc = 0;
         const auto &p = pts[a], &q = pts[b];
+        if (metric == "L2")
+        {
+            // the library's own Euclidean distance: NOT exact mode (sqrt rounds); used on generic integer data only,
+            // where sqrt is injective on the squared distances, so the order of distances is the order of the squares
+            for (size_t t = 0; t < p.size(); t++)
+                acc += (p[t] - q[t]) * (p[t] - q[t]);
+            return std::sqrt(acc);
+        }
         for (size_t t = 0; t < p.size(); t++)
         {
             double d = std::fabs(p[t] - q[t]);
